@@ -3,6 +3,7 @@ package checks
 import (
 	"context"
 	"fmt"
+	"github.com/bufbuild/buf/private/pkg/thread"
 	"math/rand/v2"
 	"os"
 	"path/filepath"
@@ -258,7 +259,17 @@ func c05Run(c *core.C, idx int) {
 		c.Violation("library-failed", "client", err.Error(), nil)
 		return
 	}
-	s := gen.Generate(c.Rand, c05GenConfig(c.Rand))
+	gcfg := c05GenConfig(c.Rand)
+	wide := idx%6 == 5
+	if wide {
+		// a module with many files under a lowered parallelism: the chunked, parallel file conversion of
+		// bufprotosource (reached only from 8 × parallelism files on) must not lose or duplicate a file
+		gcfg.Modules, gcfg.MinFiles, gcfg.MaxFiles, gcfg.Rich = 1, 18, 22, false
+		oldPar := thread.Parallelism()
+		thread.SetParallelism(2 + (idx/6)%2)
+		defer thread.SetParallelism(oldPar)
+	}
+	s := gen.Generate(c.Rand, gcfg)
 	c05Decorate(c.Rand, s)
 	ws := &c05Workspace{S: s, R: s.Render(), Version: version, Table: table}
 	has := func(rule string) bool { r := table.rule(rule); return r != nil && r.Type == "lint" && !r.Deprecated }
@@ -274,6 +285,10 @@ func c05Run(c *core.C, idx int) {
 			return
 		}
 		images[mi] = img
+		if n := len(img.Files()); wide && n/thread.Parallelism() >= 8 {
+			c.Count("cases_on_parallel_file_conversion", 1)
+			c.Distinct("parallel_file_conversion", fmt.Sprintf("files=%d parallelism=%d remainder=%d", n, thread.Parallelism(), n%thread.Parallelism()))
+		}
 	}
 	for mi, m := range s.Modules {
 		baseline := c05GlobalExpect(s, mi, has)
@@ -657,6 +672,6 @@ func init() {
 			return 49
 		},
 		Run:      c05Run,
-		Required: []string{"planted_variants", "clean_lints", "cli_comparisons", "conforming_variants"},
+		Required: []string{"planted_variants", "clean_lints", "cli_comparisons", "conforming_variants", "cases_on_parallel_file_conversion"},
 	})
 }
